@@ -1204,3 +1204,59 @@ fn test_u128_u32_roundtrip() {
         assert_eq!(u32_to_u128(a, b, c, d), *val);
     }
 }
+
+#[cfg(num_bigint_verif)]
+pub(crate) mod verif_hooks {
+    //! wrappers over internal slice routines, 64-bit digits only
+    use super::*;
+
+    pub fn add2c(a: &mut [u64], b: &[u64]) -> u64 {
+        super::addition::__add2(a, b)
+    }
+    pub fn sub2(a: &mut [u64], b: &[u64]) {
+        super::subtraction::sub2(a, b)
+    }
+    pub fn asm_add(a: &mut [u64], b: &[u64], size: usize) -> (bool, usize) {
+        assert!(size <= a.len() && size <= b.len());
+        super::addition::verif_asm_add(a, b, size)
+    }
+    pub fn asm_sub(a: &mut [u64], b: &[u64], size: usize) -> (bool, usize) {
+        assert!(size <= a.len() && size <= b.len());
+        super::subtraction::verif_asm_sub(a, b, size)
+    }
+    pub fn mac3(acc: &mut [u64], b: &[u64], c: &[u64]) {
+        super::multiplication::verif_mac3(acc, b, c)
+    }
+    pub fn sub_sign(a: &[u64], b: &[u64]) -> (crate::Sign, BigUint) {
+        super::multiplication::verif_sub_sign(a, b)
+    }
+    pub fn div_rem_core(a: BigUint, b: &[u64]) -> (BigUint, BigUint) {
+        super::division::verif_div_rem_core(a, b)
+    }
+    pub fn sub_mul_digit_same_len(a: &mut [u64], b: &[u64], c: u64) -> u64 {
+        super::division::verif_sub_mul_digit_same_len(a, b, c)
+    }
+    pub fn montgomery(x: &[u64], y: &[u64], m: &[u64], k: u64, n: usize) -> Vec<u64> {
+        super::monty::verif_montgomery(x, y, m, k, n)
+    }
+    pub fn inv_mod_alt(b: u64) -> u64 {
+        super::monty::verif_inv_mod_alt(b)
+    }
+    pub fn high_bits_to_u64(v: &BigUint) -> u64 {
+        super::convert::verif_high_bits_to_u64(v)
+    }
+    /// build a BigUint from raw digits without normalising (for internal routines that
+    /// take fixed-length operands)
+    pub fn raw(data: Vec<u64>) -> BigUint {
+        BigUint { data }
+    }
+    pub fn raw_digits(v: &BigUint) -> &[u64] {
+        &v.data
+    }
+    pub fn plain_modpow(base: &BigUint, exp: &[u64], m: &BigUint) -> BigUint {
+        super::power::verif_plain_modpow(base, exp, m)
+    }
+    pub fn monty_modpow(x: &BigUint, y: &BigUint, m: &BigUint) -> BigUint {
+        super::monty::monty_modpow(x, y, m)
+    }
+}
